@@ -51,6 +51,8 @@ Definition matches (f : N) (m : msg) : bool := m_cls m =? f.
 Inductive op :=
 | OCmd (fc : N) (react : list chunk)  (* send_command(cmd, keep = filter fc); [react] is what
                                          the device emits once the command has been written *)
+| OSend (fk : option N) (react : list chunk)
+                                      (* send_message(msg, keep): no wait; [fk] = None: no filter given *)
 | OLock                               (* Connector.lock() *)
 | OUnlock                             (* Connector.unlock() *)
 | OSync (mode : N)                    (* enable_synchronous: 0 = off, 1 = packets, 2 = all *)
@@ -334,6 +336,7 @@ Definition a_begin (cfg : config) (script : list op) : apc :=
   match script with
   | [] => A_Done
   | OCmd _ _ :: _ => if virt cfg then A_V0 else A_S0
+  | OSend _ _ :: _ => if virt cfg then A_V0 else A_S0
   | OLock :: _ => A_L1
   | OUnlock :: _ => A_U1
   | OSync m :: _ => if m =? 0 then A_E1 else if legacy_sync cfg then A_E2 else A_E3
@@ -346,7 +349,12 @@ Definition a_finish (cfg : config) (s : state) : state :=
 Definition cur_fc (s : state) : N :=
   match a_script s with OCmd fc _ :: _ => fc | _ => 0 end.
 Definition cur_react (s : state) : list chunk :=
-  match a_script s with OCmd _ r :: _ => r | _ => [] end.
+  match a_script s with OCmd _ r :: _ => r | OSend _ r :: _ => r | _ => [] end.
+(** The filter the running send installs ([None]: none given). *)
+Definition cur_fk (s : state) : option N :=
+  match a_script s with OCmd fc _ :: _ => Some fc | OSend k _ :: _ => k | _ => None end.
+Definition cur_is_cmd (s : state) : bool :=
+  match a_script s with OCmd _ _ :: _ => true | _ => false end.
 Definition cur_mode (s : state) : N :=
   match a_script s with OSync m :: _ => m | _ => 0 end.
 Definition cur_wait (s : state) : option N :=
@@ -375,9 +383,11 @@ Definition step_A (cfg : config) (s : state) : state :=
   match a_pc s with
   | A_Done => s
   | A_Crash => s
-  | A_S0 => set_a_pc A_S1 s
-  | A_S1 => set_a_pc A_S2 (set_filt (Some (cur_fc s)) s)
-  | A_S2 => set_a_pc A_W0 (set_in_q (in_q s ++ [cur_react s]) s)
+  | A_S0 => set_a_pc (match cur_fk s with Some _ => A_S1 | None => A_S2 end) s
+  | A_S1 => set_a_pc A_S2 (match cur_fk s with Some f => set_filt (Some f) s | None => s end)
+  | A_S2 =>
+      if cur_is_cmd s then set_a_pc A_W0 (set_in_q (in_q s ++ [cur_react s]) s)
+      else a_finish cfg (set_in_q (in_q s ++ [cur_react s]) s)
   | A_W0 => set_a_pc A_W1 s
   | A_W1 => set_a_pc (A_W2 None) (set_a_start (clock s) (set_a_late 0%nat s))
   | A_W2 dl =>
@@ -404,7 +414,7 @@ Definition step_A (cfg : config) (s : state) : state :=
   | A_V0 => set_a_pc A_V1 s
   | A_V1 =>
       v_next (msgs_of (concat (cur_react s)))
-             (set_filt (Some (cur_fc s))
+             (set_filt (cur_fk s)
                 (set_emitted (emitted s ++ msgs_of (concat (cur_react s))) s))
   | A_VP p m =>
       match snd (pstep cfg p m s) with
@@ -412,7 +422,7 @@ Definition step_A (cfg : config) (s : state) : state :=
       | PFin => v_next (a_vbuf s) (fst (pstep cfg p m s))
       | PCrash => set_a_pc A_Crash s
       end
-  | A_V3 => set_a_pc A_W0 s
+  | A_V3 => if cur_is_cmd s then set_a_pc A_W0 s else a_finish cfg s
   | A_L1 =>
       if legacy_lock cfg then set_a_pc A_L2 (set_locked true s)
       else set_a_pc A_L2 (set_locked_q [] s)
